@@ -7,6 +7,7 @@ import (
 	"math"
 	"os"
 	"sort"
+	"strings"
 
 	ethcrypto "github.com/ethereum/go-ethereum/crypto"
 	"github.com/holiman/uint256"
@@ -36,6 +37,7 @@ type Profile struct {
 	PAlt                 int
 	IsAlt                bool
 	InjectAfterOnly      bool // schedule injected calls only after EndBlock / after Commit (engines that serve them while drawing, C19)
+	GasFaults            bool // half of the deliberate faults are gas/price faults (C16)
 	BlockGasBoundary     bool // now and then a contract-path tx asks for exactly the block gas limit (or one more/less)
 	LiveInject           bool // only prepare fresh valid txs per block; the engine serves them as CheckTx while it drives the primary
 	NonceChaos           bool   // more gaps / stale nonces
@@ -777,7 +779,7 @@ func (s *GenSource) genTx(w *World, b *Block) ([]byte, string) {
 		case 5:
 			period = math.MaxInt64 - start + 1
 		}
-		nopt := 1 + unif(t, 3, "nOptions")
+		nopt := pick(t, []int{1, 2, 2, 3}, "nOptions")
 		if pct(t, 4, "noOptions") {
 			nopt = 0
 		}
@@ -812,6 +814,19 @@ func (s *GenSource) genTx(w *World, b *Block) ([]byte, string) {
 				sp.from = pick(t, s.all, "from")
 			}
 			choice = int32(unif(t, len(pr.Options), "choice"))
+			// now and then: a voter of the option that currently holds the majority moves elsewhere
+			if lead := leadingOption(pr); lead >= 0 && len(pr.Options) >= 2 && pct(t, 30, "defect") {
+				var backers []*Actor
+				for _, a := range s.all {
+					if v, isV := pr.Voters[ak(a.Addr)]; isV && int(v.Choice) == lead {
+						backers = append(backers, a)
+					}
+				}
+				if len(backers) > 0 {
+					sp.from = pick(t, backers, "defector")
+					choice = int32((lead + 1 + unif(t, len(pr.Options)-1, "defectTo")) % len(pr.Options))
+				}
+			}
 			if pct(t, 6, "badChoice") {
 				choice = int32(pick(t, []int{-1, len(pr.Options), math.MaxInt32, math.MinInt32}, "badChoiceVal"))
 			}
@@ -963,8 +978,10 @@ func (s *GenSource) genOption(w *World) []byte {
 	focus := map[string]int{"maxValidatorCnt": 0, "minValidatorStake": 1, "rewardPerPower": 2, "lazyRewardBlocks": 3, "gasPrice": 5, "minTrxGas": 6, "slashRatio": 7}
 	for i := 0; i < n; i++ {
 		f := unif(t, 20, "field")
-		if fi, ok := focus[s.P.GovFocus]; ok && i == 0 && pct(t, 75, "focusField") {
-			f = fi
+		if s.P.GovFocus != "" && i == 0 && pct(t, 75, "focusField") {
+			if fi, ok := focus[pick(t, strings.Split(s.P.GovFocus, ","), "focusWhich")]; ok {
+				f = fi
+			}
 		}
 		switch f {
 		case 0:
@@ -980,7 +997,7 @@ func (s *GenSource) genOption(w *World) []byte {
 		case 5:
 			o.GasPrice = pick(t, []string{"1", "10", "11", "250000000000"}, "oGasPrice")
 		case 6:
-			o.MinTrxGas = uint64(pick(t, []int{1, 10, 20, 4000}, "oMinGas"))
+			o.MinTrxGas = uint64(pick(t, []int{1, 10, 20, 50, 4000, 21000}, "oMinGas"))
 		case 7:
 			o.SlashRatio = int64(rapid.IntRange(1, 100).Draw(t, "oSlash"))
 		case 8:
@@ -1116,6 +1133,9 @@ func (s *GenSource) finish(w *World, sp *txSpec) ([]byte, string) {
 	}
 	if pct(t, s.P.PFault, "fault") {
 		fault = pick(t, []string{"nonce+1", "nonce-1", "nonce+5", "price+1", "price-1", "price0", "gasLow", "gas0", "gasHuge", "sigFlip", "otherKey", "otherChain", "noSig", "stranger"}, "faultKind")
+		if s.P.GasFaults && pct(t, 50, "gasFault") {
+			fault = pick(t, []string{"price+1", "price-1", "gasLow", "gasLow", "gasOld"}, "gasFaultKind")
+		}
 		switch fault {
 		case "nonce+1":
 			nonce++
@@ -1132,6 +1152,12 @@ func (s *GenSource) finish(w *World, sp *txSpec) ([]byte, string) {
 		case "gasLow":
 			if gas > 0 {
 				gas = p.MinTrxGas - 1
+			}
+		case "gasOld":
+			// exactly the minimum and price that were in force at genesis (stale after a governance change)
+			if !sp.contract {
+				gas = s.g.Params.MinTrxGas
+				price = s.g.Params.gasPrice()
 			}
 		case "gas0":
 			gas = 0
@@ -1185,3 +1211,13 @@ func (s *GenSource) genRaw(w *World) []byte {
 }
 
 var _ = ethcrypto.Keccak256
+
+// leadingOption: index of an option that currently holds at least the majority threshold, else -1.
+func leadingOption(pr *MProposal) int {
+	for i, v := range pr.Votes {
+		if pr.Voters != nil && pr.Total > 0 && v >= pr.Majority {
+			return i
+		}
+	}
+	return -1
+}
